@@ -189,26 +189,32 @@ def source_audit():
     return hits
 
 
+def prop_modules(prop):
+    """proof modules of a property: HidiProofs/Props/<prop>.lean and <prop>*.lean (e.g. C05full.lean)"""
+    import glob as _g
+    files = sorted(_g.glob(os.path.join(LEAN, "HidiProofs", "Props", prop + "*.lean")))
+    return [os.path.basename(f)[:-5] for f in files]
+
+
 def prop_theorems(prop):
-    """names of the theorems in HidiProofs/Props/<prop>.lean (fully qualified)"""
-    p = os.path.join(LEAN, "HidiProofs", "Props", prop + ".lean")
-    if not os.path.exists(p):
-        return []
-    src = strip_comments(open(p).read())
-    ns = []
+    """names of the theorems in the property's proof modules (fully qualified)"""
     names = []
-    for line in src.split("\n"):
-        m = re.match(r"\s*namespace\s+(\S+)", line)
-        if m:
-            ns.append(m.group(1))
-            continue
-        m = re.match(r"\s*end\s+(\S+)", line)
-        if m and ns and ns[-1].split(".")[-1] == m.group(1).split(".")[-1]:
-            ns.pop()
-            continue
-        m = re.match(r"\s*(?:private\s+|protected\s+)?theorem\s+(\S+)", line)
-        if m:
-            names.append(".".join(ns + [m.group(1)]))
+    for mod in prop_modules(prop):
+        p = os.path.join(LEAN, "HidiProofs", "Props", mod + ".lean")
+        src = strip_comments(open(p).read())
+        ns = []
+        for line in src.split("\n"):
+            m = re.match(r"\s*namespace\s+(\S+)", line)
+            if m:
+                ns.append(m.group(1))
+                continue
+            m = re.match(r"\s*end\s+(\S+)", line)
+            if m and ns and ns[-1].split(".")[-1] == m.group(1).split(".")[-1]:
+                ns.pop()
+                continue
+            m = re.match(r"\s*(?:private\s+|protected\s+)?theorem\s+(\S+)", line)
+            if m:
+                names.append(".".join(ns + [m.group(1)]))
     return names
 
 
@@ -221,7 +227,7 @@ def axiom_audit(prop):
         res["ok"] = False
         res["log"] = "no theorems found for " + prop
         return res
-    ok, o = lake_build(["Hidi", "hidi-driver", "HidiProofs.Props." + prop])
+    ok, o = lake_build(["Hidi", "hidi-driver"] + ["HidiProofs.Props." + m for m in prop_modules(prop)])
     if not ok:
         res["ok"] = False
         res["log"] = o[-6000:]
@@ -230,7 +236,8 @@ def axiom_audit(prop):
     os.makedirs(WORK, exist_ok=True)
     audit = os.path.join(WORK, "Audit_%s.lean" % prop)
     with open(audit, "w") as f:
-        f.write("import HidiProofs.Props.%s\n" % prop)
+        for m in prop_modules(prop):
+            f.write("import HidiProofs.Props.%s\n" % m)
         for n in names:
             f.write("#print axioms %s\n" % n)
     rc, o = run(["lake", "env", "lean", audit], cwd=LEAN, timeout=1800)
@@ -320,7 +327,7 @@ class Verdict:
             payload["signature"] = sig
             path = write_replay(self.prop, payload)
             print("VIOLATION property=%s replay=%s%s" % (self.prop, path, "" if found else " no-failing-input-found"))
-            if len(seen) >= 5:
+            if len(seen) >= 12:
                 break
         sys.stdout.flush()
         return 1 if self.violations else 0
